@@ -2193,7 +2193,13 @@ fn generate_expression(
                     }
                     name => panic!("Unimplemented global intrinsic: {}", name),
                 }
+            } else if let Some(GlobalMode::Constant) = context.global_variable_modes.get(v) {
+                // Constants stay where they are declared so are found by their full name
+                ast::Expression::Identifier(scoped_name_to_identifier(
+                    context.get_global_name_full(*v)?,
+                ))
             } else {
+                // All other globals are passed into the function as a parameter with the short name
                 ast::Expression::Identifier(ast::ScopedIdentifier::trivial(
                     context.get_global_name(*v)?,
                 ))
@@ -4475,6 +4481,14 @@ impl<'m> GenerateContext<'m> {
     fn get_global_name(&self, id: ir::GlobalId) -> Result<&str, GenerateError> {
         assert!(!self.module.global_registry[id.0 as usize].is_intrinsic);
         Ok(self.name_map.get_name_leaf(NameSymbol::GlobalVariable(id)))
+    }
+
+    /// Get the full name of a global variable
+    fn get_global_name_full(&self, id: ir::GlobalId) -> Result<ScopedName, GenerateError> {
+        assert!(!self.module.global_registry[id.0 as usize].is_intrinsic);
+        Ok(self
+            .name_map
+            .get_name_qualified(NameSymbol::GlobalVariable(id), self.current_namespace))
     }
 
     /// Get the name of a function
